@@ -17,6 +17,9 @@ types, assume_specifications, spec functions, lemmas):
                                       are its ASSUMED contract (discharged by another unit, named in the template)
   //@fn? / //@extern?                like //@fn / //@extern, but an absent anchor is skipped (helper functions that a refactoring
                                       may inline; the property-carrying caller is still verified); recorded in the sidecar
+  //@dropstmt <needle> | <replacement>   the statement of the body that STARTS with <needle> (up to its terminating `;` at the same
+                                      nesting depth) is replaced by <replacement>.  Used only for a statement whose closure argument is
+                                      outside Verus' subset; the dropped text is recorded (it is NOT verified) - see DESIGN 9.2 rule 11
   //@ghost | <text>                  (ghost/proof line placed right after the opening brace of the body; erased code)
 
 Parameter patterns `In(pat): In<T>` (Bevy system input) are not accepted by the verus! macro; they are desugared the
@@ -112,6 +115,28 @@ def _name_return(sig, ret):
     ty = rest[:mw.start()] if mw else rest
     tail = rest[mw.start():] if mw else ''
     return sig[:arrow] + '-> (%s: %s)\n' % (ret, ty.strip()) + tail
+
+
+def _replace_statement(body, needle, rep, fname):
+    """Replace the statement starting with `needle` (whitespace-insensitive) by `rep`. Returns (new_body, dropped_text)."""
+    rx = re.compile(r'\s*'.join(re.escape(tok) for tok in needle.split()))
+    start = None
+    for j, d in rc.code_positions(body):
+        if rx.match(body, j) and (j == 0 or not (body[j - 1].isalnum() or body[j - 1] == '_')):
+            start = j; break
+    if start is None:
+        raise CutError('fn %s: statement to replace not found: %s' % (fname, needle))
+    depth = 0
+    end = None
+    for k, d in rc.code_positions(body, start):
+        c = body[k]
+        if c in '([{': depth += 1
+        elif c in ')]}': depth -= 1
+        elif c == ';' and depth == 0:
+            end = k; break
+    if end is None:
+        raise CutError('fn %s: end of statement not found: %s' % (fname, needle))
+    return body[:start] + rep + body[end + 1:], body[start:end + 1]
 
 
 def _desugar_in_params(sig):
@@ -242,15 +267,18 @@ def expand(template_path, repo='/repo'):
                 toks = toks[:-1]
             name = toks[-1]
             anchor = ' '.join(toks[:-1])
-            clauses, loops, loopvars, ghosts = [], {}, {}, []
+            clauses, loops, loopvars, ghosts, dropstmts = [], {}, {}, [], []
             while i + 1 < len(tpl) and (tpl[i + 1].strip().startswith('//@|') or tpl[i + 1].strip().startswith('//@loop')
-                                        or tpl[i + 1].strip().startswith('//@ghost')):
+                                        or tpl[i + 1].strip().startswith('//@ghost') or tpl[i + 1].strip().startswith('//@dropstmt')):
                 i += 1
                 t = tpl[i].strip()
                 if t.startswith('//@|'):
                     clauses.append('        ' + t[4:].strip())
                 elif t.startswith('//@ghost'):
                     ghosts.append('        ' + t.split('|', 1)[1].strip())
+                elif t.startswith('//@dropstmt'):
+                    nd, rep = t[len('//@dropstmt'):].split('|', 1)
+                    dropstmts.append((nd.strip(), rep.strip()))
                 elif t.startswith('//@loopvar'):
                     _, o, nm = t.split()
                     loopvars[int(o)] = nm
@@ -295,6 +323,9 @@ def expand(template_path, repo='/repo'):
             if ret:
                 sig = _name_return(sig, ret)
             body, dropped = rc.drop_statements(fn['body'])
+            for needle, rep in dropstmts:
+                body, what = _replace_statement(body, needle, rep, name)
+                side.setdefault('replaced_statements', []).append({'fn': name, 'dropped_sha256': hashlib.sha256(what.encode()).hexdigest()[:16], 'dropped_head': re.sub(r'\s+', ' ', what)[:120], 'replacement': rep})
             body = _insert_loop_invariants(body, loops, name, loopvars)
             sig, in_lets = _desugar_in_params(sig)
             if in_lets or ghosts:
